@@ -84,6 +84,8 @@ for sid in sorted(os.listdir(sd)):
         verdict, sig = "not run yet", ""
     elif not r.get("applies"):
         verdict, sig = "patch no longer applies (code rewritten by a fix: commit)", ""
+    elif r.get("demo_exit_patched", 1) == 0:
+        verdict, sig = "n/a: on the current tree (after later fix: commits) the change is harmless — the seeder's own demonstration passes with it", ""
     else:
         runs = r["runs"]
         caught = [x for x in runs if x["exit"] == 1 and x["violations"]]
@@ -99,6 +101,26 @@ for sid in sorted(os.listdir(sd)):
     w("| %s | %s | %s | %s | %s | %s |" % (sid, m["property"], m["breaks"].replace("|", "\\|"), m["needs_to_manifest"].replace("|", "\\|"),
                                         verdict, sig.replace("|", "\\|")))
 w("\n%d caught, %d missed in the last recorded quick runs.\n" % (ncaught, nmiss))
+
+hp = os.path.join(HERE, "harmless", "RESULTS.json")
+if os.path.exists(hp):
+    hr = json.load(open(hp))
+    w("### 11.4 Behaviour-preserving refactorings and false alarms (from `harmless/RESULTS.json`)\n")
+    w("Independent sub-agents (given only a scratch worktree and the names of the functions to restructure) wrote "
+      "behaviour-preserving refactorings (10–60 changed lines each, each with its own differential self-check); "
+      "`tools/run_harmless.py` applies each and runs the quick check of every property whose mirrored files it touches. "
+      "A changed fingerprint makes those checks run with the enlarged budget (≈240 s).\n")
+    w("| refactoring | files | checks run | alarms |")
+    w("|---|---|---|---|")
+    nrun = nal = 0
+    for hid in sorted(hr):
+        r = hr[hid]
+        if not r.get("applies"):
+            w("| %s | — | patch did not apply | |" % hid); continue
+        nrun += len(r["runs"]); nal += len(r["alarms"])
+        al = "; ".join("%s: %s" % (x["property"], ("correspondence break, no failing input" if any("no-failing-input-found" in v for v in x["violations"]) else ("exit %d" % x["exit"]) if not x["violations"] else "VIOLATION with input")) for x in r["runs"] if x["exit"] != 0) or "none"
+        w("| %s | %s | %s | %s |" % (hid, ", ".join(f.replace("python/eups/", "") for f in r["files"]), " ".join(x["property"] for x in r["runs"]), al))
+    w("\n%d check runs, %d alarms.\n" % (nrun, nal))
 
 text = "\n".join(out)
 dp = os.path.join(HERE, "DESIGN.md")
